@@ -124,13 +124,24 @@ type srcKind struct {
 // fragBuffered: a compress.BufferedReader that fragments Buffered/Peek randomly
 // within the api.go contract.
 type fragBuffered struct {
-	B   []byte
-	Pos int
-	Rng *rand.Rand
-	buf int // currently "buffered" bytes
+	B    []byte
+	Pos  int
+	Rng  *rand.Rand
+	buf  int    // currently "buffered" bytes
+	lent []byte // what the last Peek handed out: a private copy, overwritten by the next call
+}
+
+// poison: the contract lets a Peek result become invalid with the next Read, Discard or Peek; this
+// source really does reuse that memory (as a queue that slides its data to the front does)
+func (f *fragBuffered) poison() {
+	for i := range f.lent {
+		f.lent[i] ^= 0xa5
+	}
+	f.lent = nil
 }
 
 func (f *fragBuffered) Read(p []byte) (int, error) {
+	f.poison()
 	if f.Pos >= len(f.B) {
 		return 0, io.EOF
 	}
@@ -157,12 +168,16 @@ func (f *fragBuffered) Peek(n int) ([]byte, error) {
 			f.buf = avail
 		}
 	}
+	f.poison()
 	if n > avail {
-		return f.B[f.Pos:], io.EOF
+		f.lent = append([]byte{}, f.B[f.Pos:]...)
+		return f.lent, io.EOF
 	}
-	return f.B[f.Pos : f.Pos+n], nil
+	f.lent = append([]byte{}, f.B[f.Pos:f.Pos+n]...)
+	return f.lent, nil
 }
 func (f *fragBuffered) Discard(n int) (int, error) {
+	f.poison()
 	avail := len(f.B) - f.Pos
 	if n > avail {
 		f.Pos += avail
@@ -281,6 +296,13 @@ func observeT(c codec, data []byte, sk srcKind, sched []int, rng *rand.Rand, lim
 	}
 }
 
+// observeReuse makes observe work with ONE Reader per codec, Reset from stream to stream (what a
+// Reader keeps from earlier streams - tables, windows, per-tree parameters - must not show).
+var (
+	observeReuse bool
+	observeUsed  = map[string]rdr{}
+)
+
 // observe reads a decoder to its first error with the given schedule, checking
 // per-call invariants (n <= len(buf), OutputOffset bookkeeping).
 func observe(c codec, data []byte, sk srcKind, sched []int, rng *rand.Rand) (o obs) {
@@ -291,7 +313,20 @@ func observe(c codec, data []byte, sk srcKind, sched []int, rng *rand.Rand) (o o
 			o.Cls = "Panic"
 		}
 	}()
-	zr := c.New(src)
+	var zr rdr
+	if observeReuse {
+		// a Reader that has already been through another stream, handed the new one by Reset
+		if z, ok := observeUsed[c.Name]; ok {
+			z.Reset(src)
+			zr = z
+		}
+	}
+	if zr == nil {
+		zr = c.New(src)
+	}
+	if observeReuse {
+		observeUsed[c.Name] = zr
+	}
 	i, idle := 0, 0
 	var pool []byte // one buffer for all calls (a fresh 1 MiB buffer per call dominates the run time)
 	for {
